@@ -22,6 +22,7 @@ import Driver.IntegrateOps
 import Driver.HybridOps
 import Driver.ProfileOps
 import Driver.ValidateOps
+import Driver.ExportOps
 open Lean Driver
 
 def dispatch (op : String) (j : Json) : Except String Json :=
@@ -42,6 +43,7 @@ def dispatch (op : String) (j : Json) : Except String Json :=
   | "hybrid" => hybridOp op j
   | "profile" => profileOp op j
   | "validate" => validateOp op j
+  | "export" => exportOp op j
   | _ => .error s!"unknown op family in '{op}'"
 
 def handle (line : String) : String :=
